@@ -418,40 +418,40 @@ The Boolean form of the hypotheses of the round-trip theorem (`Hub.Props.C12.Gen
 `Hub.Props.C12.genWF_of_check`). It can be evaluated on every state of a run (model side, or a state loaded
 from the implementation's dump) as a monitor: `genWFViolations s = []` says the theorem applies to `s`. -/
 
-def nodupKeys {κ α : Type} [DecidableEq κ] (t : Tbl κ α) : Bool := !hasDup t.keys
+def genNodupKeys {κ α : Type} [DecidableEq κ] (t : Tbl κ α) : Bool := !hasDup t.keys
 
 /-- Both partitions duplicate-free, records under their own key and status, no key in both. -/
-def partOKb {κ α : Type} [DecidableEq κ] (tA tI : Tbl κ α) (key : α → κ) (st : α → Status) : Bool :=
-  nodupKeys tA && nodupKeys tI &&
+def genPartOKb {κ α : Type} [DecidableEq κ] (tA tI : Tbl κ α) (key : α → κ) (st : α → Status) : Bool :=
+  genNodupKeys tA && genNodupKeys tI &&
   tA.all (fun p => decide (key p.2 = p.1) && decide (st p.2 = .StatusActive)) &&
   tI.all (fun p => decide (key p.2 = p.1) && decide (st p.2 = .StatusInactive)) &&
   tA.all (fun p => !tI.has p.1)
 
 /-- `idx` holds exactly the keys `proj k v` of the records of `t`. -/
-def indexOKb {κ α ι : Type} [DecidableEq κ] [DecidableEq ι] (idx : Tbl ι Unit) (t : Tbl κ α) (recOf : ι → κ) (proj : κ → α → ι) : Bool :=
+def genIndexOKb {κ α ι : Type} [DecidableEq κ] [DecidableEq ι] (idx : Tbl ι Unit) (t : Tbl κ α) (recOf : ι → κ) (proj : κ → α → ι) : Bool :=
   idx.all (fun p => match t.get (recOf p.1) with | some v => decide (proj (recOf p.1) v = p.1) | none => false) &&
   t.all (fun p => idx.has (proj p.1 p.2))
 
-def planAt (s : State) (i : Nat) : Option Plan := match s.planActive.get i with | some p => some p | none => s.planInactive.get i
+def genPlanAt (s : State) (i : Nat) : Option Plan := match s.planActive.get i with | some p => some p | none => s.planInactive.get i
 
 def genWFChecks (s : State) : List (String × Bool) :=
-  [ ("deposits nodup", nodupKeys s.deposits), ("links nodup", nodupKeys s.nodeForPlan), ("sessions nodup", nodupKeys s.sessions),
-    ("swaps nodup", nodupKeys s.swaps), ("inflations nodup", nodupKeys s.inflations),
-    ("providers partition", partOKb s.provActive s.provInactive (·.addr) (·.status)),
-    ("nodes partition", partOKb s.nodeActive s.nodeInactive (·.addr) (·.status)),
-    ("plans partition", partOKb s.planActive s.planInactive (·.id) (·.status)),
+  [ ("deposits nodup", genNodupKeys s.deposits), ("links nodup", genNodupKeys s.nodeForPlan), ("sessions nodup", genNodupKeys s.sessions),
+    ("swaps nodup", genNodupKeys s.swaps), ("inflations nodup", genNodupKeys s.inflations),
+    ("providers partition", genPartOKb s.provActive s.provInactive (·.addr) (·.status)),
+    ("nodes partition", genPartOKb s.nodeActive s.nodeInactive (·.addr) (·.status)),
+    ("plans partition", genPartOKb s.planActive s.planInactive (·.id) (·.status)),
     ("session key", s.sessions.all fun p => decide (p.2.id = p.1)),
     ("swap key", s.swaps.all fun p => decide (p.2.hash = p.1)),
     ("inflation key", s.inflations.all fun p => decide (p.2.ts = p.1)),
-    ("node queue", indexOKb s.nodeQ s.nodeActive (·.2) (fun a n => (n.inactiveAt, a))),
-    ("plan index", s.planForProv.all (fun p => match planAt s p.1.2 with | some pl => decide (pl.prov = p.1.1) | none => false) &&
+    ("node queue", genIndexOKb s.nodeQ s.nodeActive (·.2) (fun a n => (n.inactiveAt, a))),
+    ("plan index", s.planForProv.all (fun p => match genPlanAt s p.1.2 with | some pl => decide (pl.prov = p.1.1) | none => false) &&
                    s.planActive.all (fun p => s.planForProv.has (p.2.prov, p.1)) && s.planInactive.all (fun p => s.planForProv.has (p.2.prov, p.1))),
     ("links", s.nodeForPlan.all fun p => (s.planActive.has p.1.1 || s.planInactive.has p.1.1) && (s.nodeActive.has p.1.2 || s.nodeInactive.has p.1.2)),
-    ("session queue", indexOKb s.sessQ s.sessions (·.2) (fun i x => (x.inactiveAt, i))),
-    ("session by account", indexOKb s.sessForAcc s.sessions (·.2) (fun i x => (x.addr, i))),
-    ("session by node", indexOKb s.sessForNode s.sessions (·.2) (fun i x => (x.node, i))),
-    ("session by subscription", indexOKb s.sessForSub s.sessions (·.2) (fun i x => (x.sub, i))),
-    ("session by allocation", indexOKb s.sessForAlloc s.sessions (·.2.2) (fun i x => (x.sub, x.addr, i))),
+    ("session queue", genIndexOKb s.sessQ s.sessions (·.2) (fun i x => (x.inactiveAt, i))),
+    ("session by account", genIndexOKb s.sessForAcc s.sessions (·.2) (fun i x => (x.addr, i))),
+    ("session by node", genIndexOKb s.sessForNode s.sessions (·.2) (fun i x => (x.node, i))),
+    ("session by subscription", genIndexOKb s.sessForSub s.sessions (·.2) (fun i x => (x.sub, i))),
+    ("session by allocation", genIndexOKb s.sessForAlloc s.sessions (·.2.2) (fun i x => (x.sub, x.addr, i))),
     ("plan counter", match s.planCount with
       | some c => s.planActive.all (fun p => decide (p.1 ≤ c)) && s.planInactive.all (fun p => decide (p.1 ≤ c)) &&
                   (decide (c = 0) || s.planActive.has c || s.planInactive.has c)
@@ -501,16 +501,17 @@ def exportLines (s : State) : String × List String :=
   | none => ("accept", genesisLines g w m)
   | some e => ("reject:" ++ e.replace " " "_", genesisLines g w m)
 
-/-- The answer to `reimport`: the new state, or the rejection (the old state keeps running). The
-events of the new state are empty. -/
+/-- The answer to `reimport`: the new state, or why it is refused (the driver prints `reject:<why>`; the
+old state keeps running): `export:panic`, `invalid:<module>` (`vpn` / `swap` / `custommint`, as the
+harness prints), `boot:…`. The events of the new state are empty. -/
 def reimportState (s : State) : Except String State :=
-  if exportPanics s then .error "reject:export:panic" else
+  if exportPanics s then .error "export:panic" else
   match validateGenesis (exportVpn s) (exportSwap s) (exportMint s) with
-  | some e => .error ("reject:invalid:" ++ (e.splitOn ":").headD "")
+  | some e => .error ("invalid:" ++ (e.splitOn ":").headD "")
   | none =>
     match initGenesis (sdkSide s) (exportVpn s) (exportSwap s) (exportMint s) with
     | .ok s' => .ok s'
-    | .error (.panic e) => .error ("reject:boot:panic:_" ++ e.replace " " "_")
-    | .error (.reject e) => .error ("reject:boot:" ++ e.replace " " "_")
+    | .error (.panic e) => .error ("boot:panic: " ++ e)
+    | .error (.reject e) => .error ("boot:" ++ e)
 
 end Hub.Model
